@@ -380,3 +380,26 @@ def snapshot(obj):
 
 def _cells_key(v):
     return tuple("nan" if (isinstance(x, float) and x != x) else x for x in v.ravel().tolist())
+
+
+def second_step_probe(res):
+    """history independence of a produced array (C01 / C05): indexed again with the default spellings it must behave like a
+    freshly built array with the same dims, labels and values.  Returns a description of the difference or None."""
+    if not isinstance(res, DimArray) or res.ndim == 0 or any(ax.size == 0 for ax in res.axes):
+        return None
+    fresh = DimArray(np.array(res.values), axes=[Axis(np.array(ax.values), ax.name) for ax in res.axes])
+    labels = tuple(ax.values[-1] for ax in res.axes)
+    probes = [("res[last labels]", lambda x: x[labels if len(labels) > 1 else labels[0]]),
+              ("res.ix[-1,..]", lambda x: x.ix[tuple([-1] * x.ndim) if x.ndim > 1 else -1]),
+              ("res.take(last label, axis=0)", lambda x: x.take(labels[0], axis=0))]
+    for name, fn in probes:
+        out = []
+        for x in (res, fresh):
+            try:
+                r = fn(x)
+                out.append(("ok", _cells_key(np.asarray(r.values if isinstance(r, DimArray) else r))))
+            except Exception as e:  # noqa
+                out.append(("raised", type(e).__name__))
+        if out[0] != out[1]:
+            return "history dependence: %s gives %s on the produced array, %s on an equal freshly built one" % (name, out[0], out[1])
+    return None
